@@ -63,13 +63,17 @@ structure WfKP (cl : List KSk) (nextClient : Nat) : Prop where
   nodup : (cl.map (·.id)).Nodup
   lt : ∀ c ∈ cl, c.id < nextClient
 
+/-- number of sub-requests of the compound request `id` that can still complete (linked queries it owns) -/
+def subsP (qKO : List (Nat × Owner)) (idx : List Nat) (id : Nat) : Nat :=
+  qKO.countP fun p => decide (p.1 ∈ idx) && decide (p.2 = Owner.client id)
+
 /-- the compound request `id` has no sub-request that could still complete -/
 def NoSubP (qKO : List (Nat × Owner)) (idx : List Nat) (id : Nat) : Prop :=
   ∀ p ∈ qKO, p.1 ∈ idx → p.2 ≠ .client id
 
 /-- token accounting: callbacks made / still owed are duplicate-free and disjoint; every linked query owned by
     the application has its token pending and is the only holder of it; every linked sub-request of a
-    compound request has a live compound request whose token is pending, and is its only sub-request -/
+    compound request has a live compound request whose token is pending -/
 structure WfTokP (qKO : List (Nat × Owner)) (idx : List Nat) (cl : List KSk) (pend done : List Nat)
     (rs : Nat) : Prop where
   pN : pend.Nodup
@@ -79,8 +83,7 @@ structure WfTokP (qKO : List (Nat × Owner)) (idx : List Nat) (cl : List KSk) (p
   dB : ∀ t ∈ done, t < 10000 + rs
   tQ : ∀ p ∈ qKO, p.1 ∈ idx → ∀ tok, p.2 = .user tok →
     tok ∈ pend ∧ (∀ p' ∈ qKO, p'.1 ∈ idx → p'.2 = .user tok → p'.1 = p.1) ∧ (∀ c ∈ cl, c.tok ≠ tok)
-  tC : ∀ p ∈ qKO, p.1 ∈ idx → ∀ id, p.2 = .client id →
-    (∃ c ∈ cl, c.id = id ∧ c.tok ∈ pend) ∧ (∀ p' ∈ qKO, p'.1 ∈ idx → p'.2 = .client id → p'.1 = p.1)
+  tC : ∀ p ∈ qKO, p.1 ∈ idx → ∀ id, p.2 = .client id → ∃ c ∈ cl, c.id = id ∧ c.tok ∈ pend
   tK : ∀ c ∈ cl, c.tok ∈ pend ∨ c.tok ∈ done
   tKU : ∀ c ∈ cl, ∀ c' ∈ cl, c.tok = c'.tok → c.tok ∈ pend → c.id = c'.id
 
@@ -98,44 +101,75 @@ def Wf (s : St) : Prop := WfS s.sk none
 
 def Sk.Idx (a : Sk) (k : Nat) : Prop := k ∈ a.idx
 def Sk.NoSub (a : Sk) (id : Nat) : Prop := NoSubP a.qKO a.idx id
+def Sk.subs (a : Sk) (id : Nat) : Nat := subsP a.qKO a.idx id
+/-- the compound request `id` is live and its user callback is still owed -/
+def Sk.Active (a : Sk) (id : Nat) : Prop := ∃ c ∈ a.clients, c.id = id ∧ c.tok ∈ a.pendingToks
+
+/-! ### ghost debt
+
+`d id` = number of sub-requests the frames *below* the current procedure on the C stack are still going to
+start for the compound request `id` (the not-yet-executed `.send` actions of the `runActs` frames in
+progress).  It is a ghost parameter of the precondition / postcondition pair: every body lemma holds for
+every `d`.  `DebtOk x d a`: each active compound request (other than `x`) waits for exactly its linked
+sub-requests plus that debt. -/
+
+def bump (d : Nat → Nat) (id n : Nat) : Nat → Nat := fun i => if i = id then d i + n else d i
+
+structure DebtOk (x : Option Nat) (d : Nat → Nat) (a : Sk) : Prop where
+  fresh : ∀ id, a.nextClient ≤ id → d id = 0
+  cnt : ∀ c ∈ a.clients, c.tok ∈ a.pendingToks → some c.id ≠ x → c.out = a.subs c.id + d c.id
 
 /-- the caller holds a completion callback that has not been invoked and that no live object will invoke -/
-def OwnerFreeP (qKO : List (Nat × Owner)) (idx : List Nat) (cl : List KSk) (pend : List Nat) : Owner → Prop
+def Sk.OwnerFree (a : Sk) : Owner → Prop
   | .probe => True
-  | .user tok => tok ∈ pend ∧ (∀ p ∈ qKO, p.1 ∈ idx → p.2 ≠ .user tok) ∧ (∀ c ∈ cl, c.tok ≠ tok)
-  | .client id => (∃ c ∈ cl, c.id = id ∧ c.tok ∈ pend) ∧ NoSubP qKO idx id
+  | .user tok => tok ∈ a.pendingToks ∧ (∀ p ∈ a.qKO, p.1 ∈ a.idx → p.2 ≠ .user tok) ∧
+      (∀ c ∈ a.clients, c.tok ≠ tok)
+  | .client id => a.Active id
 
-def Sk.OwnerFree (a : Sk) (o : Owner) : Prop := OwnerFreeP a.qKO a.idx a.clients a.pendingToks o
+/-- `.send` / `.sendSlot` actions that `runActs` will execute (those before the first `.finish`) -/
+def sends : List ClientAct → Nat
+  | [] => 0
+  | .send _ :: r => sends r + 1
+  | .sendSlot _ _ :: r => sends r + 1
+  | .noRetry _ :: r => sends r
+  | .finish _ _ _ :: _ => 0
 
-/-- what the pure client logic may ask for: nothing, one sub-request, or completion -/
-def ActsOk : List ClientAct → Prop
-  | [] => True
-  | [.send _] => True
-  | .finish _ _ _ :: _ => True
-  | _ => False
+def hasFinish : List ClientAct → Bool
+  | [] => false
+  | .finish _ _ _ :: _ => true
+  | _ :: r => hasFinish r
+
+/-- owner-specific part of the debt invariant: the callback / request about to be handed over counts as one
+    outstanding sub-request of its compound request -/
+def Sk.DebtFor (a : Sk) (d : Nat → Nat) : Owner → Prop
+  | .client id => DebtOk none (bump d id 1) a
+  | _ => DebtOk none d a
 
 def Sk.hasConn (a : Sk) (fd : Nat) (unl : Bool) : Prop := ∃ q, (fd, unl, q) ∈ a.cFUQ
 def Sk.liveConn (a : Sk) (fd : Nat) : Prop := fd ∈ a.cFQ.map (·.1)
 
 /-- precondition of each procedure (what its callers establish) -/
-def Pre (s : St) : Call → Prop
-  | .sendNolock _ _ _ _ owner _ => Wf s ∧ s.sk.OwnerFree owner
-  | .sendQuery _ key => Wf s ∧ s.sk.Idx key
-  | .requeue key _ _ _ _ => WfS s.sk (some key) ∧ s.sk.Idx key
-  | .endQuery _ key _ _ => WfS s.sk (some key) ∧ s.sk.Idx key
-  | .callback owner _ _ _ _ => Wf s ∧ s.sk.OwnerFree owner
-  | .userCb tok _ _ _ _ => Wf s ∧ tok ∈ s.sk.pendingToks ∧
+def Pre (d : Nat → Nat) (s : St) : Call → Prop
+  | .sendNolock _ _ _ _ owner _ => Wf s ∧ s.sk.OwnerFree owner ∧ s.sk.DebtFor d owner
+  | .sendQuery _ key => Wf s ∧ s.sk.Idx key ∧ DebtOk none d s.sk
+  | .requeue key _ _ _ _ => WfS s.sk (some key) ∧ s.sk.Idx key ∧ DebtOk none d s.sk
+  | .endQuery _ key _ _ => WfS s.sk (some key) ∧ s.sk.Idx key ∧ DebtOk none d s.sk
+  | .callback owner _ _ _ _ => Wf s ∧ s.sk.OwnerFree owner ∧ s.sk.DebtFor d owner
+  | .userCb tok _ _ _ _ => Wf s ∧ DebtOk none d s.sk ∧ tok ∈ s.sk.pendingToks ∧
       (∀ p ∈ s.sk.qKO, p.1 ∈ s.sk.idx → p.2 ≠ .user tok) ∧
-      (∀ c ∈ s.sk.clients, c.tok = tok → s.sk.NoSub c.id)
-  | .closeConn fd _ => Wf s ∧ s.sk.hasConn fd false
-  | .connError fd _ _ => Wf s ∧ s.sk.hasConn fd false
-  | .closeLoop fd _ => Wf s ∧ s.sk.hasConn fd true
-  | .flush fd => Wf s ∧ s.sk.liveConn fd
-  | .readAnswers fd => Wf s ∧ s.sk.liveConn fd
-  | .processAnswer fd _ => Wf s ∧ s.sk.liveConn fd
-  | .clientStart _ tok _ _ => Wf s ∧ s.sk.OwnerFree (.user tok)
-  | .runActs id acts => Wf s ∧ ActsOk acts ∧ (acts ≠ [] → s.sk.OwnerFree (.client id))
-  | _ => Wf s
+      (∀ c ∈ s.sk.clients, c.tok = tok → s.sk.NoSub c.id ∧ d c.id = 0)
+  | .closeConn fd _ => Wf s ∧ s.sk.hasConn fd false ∧ DebtOk none d s.sk
+  | .connError fd _ _ => Wf s ∧ s.sk.hasConn fd false ∧ DebtOk none d s.sk
+  | .closeLoop fd _ => Wf s ∧ s.sk.hasConn fd true ∧ DebtOk none d s.sk
+  | .flush fd => Wf s ∧ s.sk.liveConn fd ∧ DebtOk none d s.sk
+  | .readAnswers fd => Wf s ∧ s.sk.liveConn fd ∧ DebtOk none d s.sk
+  | .processAnswer fd _ => Wf s ∧ s.sk.liveConn fd ∧ DebtOk none d s.sk
+  | .clientStart _ tok _ _ _ => Wf s ∧ s.sk.OwnerFree (.user tok) ∧ DebtOk none d s.sk
+  | .runActs id acts => Wf s ∧
+      (if hasFinish acts then
+        s.sk.Active id ∧ sends acts = 0 ∧ s.sk.NoSub id ∧ d id = 0 ∧ DebtOk (some id) d s.sk
+       else DebtOk none (bump d id (sends acts)) s.sk ∧ (0 < sends acts → s.sk.Active id))
+  | _ => Wf s ∧ DebtOk none d s.sk
 
 def exFd : Call → Option Nat
   | .closeLoop fd _ => some fd
@@ -148,7 +182,7 @@ def exId : Call → Option Nat
   | _ => none
 
 /-- what every procedure guarantees about the pair (state before, state after) -/
-structure StepS (xf xi : Option Nat) (a a' : Sk) : Prop where
+structure StepS (xf xi : Option Nat) (d : Nat → Nat) (a a' : Sk) : Prop where
   /-- no safety fault is recorded -/
   faults : a'.faults = a.faults
   kMono : a.nextClient ≤ a'.nextClient
@@ -156,6 +190,8 @@ structure StepS (xf xi : Option Nat) (a a' : Sk) : Prop where
   unl : ∀ fd q, (fd, true, q) ∈ a.cFUQ → some fd ≠ xf → ∃ q', (fd, true, q') ∈ a'.cFUQ ∧ ∀ k ∈ q', k ∈ q
   /-- a compound request without sub-requests gets none (unless the procedure acts for it) -/
   orphan : ∀ id, id < a.nextClient → some id ≠ xi → a.NoSub id → a'.NoSub id
+  /-- a compound request for which an outer frame will still start sub-requests is not completed -/
+  debtAlive : ∀ id, a.Active id → 0 < d id → a'.Active id
 
 /-- call-specific postconditions -/
 def Post (s : St) (r : St × Ret) : Call → Prop
@@ -164,12 +200,13 @@ def Post (s : St) (r : St × Ret) : Call → Prop
       ∀ fd q, (fd, true, q) ∈ s.sk.cFUQ → ∀ q', (fd, q') ∈ r.1.sk.cFQ → key ∉ q'
   | _ => True
 
-structure Good (c : Call) (s : St) (r : St × Ret) : Prop where
+structure Good (d : Nat → Nat) (c : Call) (s : St) (r : St × Ret) : Prop where
   wf : Wf r.1
-  step : StepS (exFd c) (exId c) s.sk r.1.sk
+  debt : DebtOk none d r.1.sk
+  step : StepS (exFd c) (exId c) d s.sk r.1.sk
   post : Post s r c
 
 /-- the hypothesis on the recursive calls in every body lemma -/
-def GoOk (go : Call → St → St × Ret) : Prop := ∀ c s, Pre s c → Good c s (go c s)
+def GoOk (go : Call → St → St × Ret) : Prop := ∀ d c s, Pre d s c → Good d c s (go c s)
 
 end Cares.Chan
